@@ -1614,3 +1614,100 @@ def C14(ctx):
         if any(v >= 2 for v in rows_g.values()) or any(v >= 2 for v in rows_a.values()):
             nontrivial.append((ctx.spec['id'], ids_before(ctx, i), tuple(t.split('/')[0] for t in toks if t[0] in 'ga')))
     return dict(nontrivial=nontrivial, classes=classes)
+
+
+# ---------------------------------------------------------------------------------------------- C15
+def C15(ctx):
+    """Copies / assignments / moves: (faithful) every object behaves, from the copy point on, exactly like a fresh machine
+    that is given that object's whole history (the source's history up to the copy plus its own continuation) -
+    configuration at every level, history memory, pending occurrences included; (independent) while one object is driven
+    no behaviour of another object runs and the other objects' configuration does not change."""
+    st = ctx.static
+    classes = Counter()
+    nontrivial = []
+    ex = getattr(ctx, 'extra', None) or {}
+    refs, hist = ex.get('refs', {}), ex.get('hist', {})
+    last_ids = {}
+    cur = 0
+    copied_from_nontrivial = set()
+    init_ids = None
+    for i, c in enumerate(ctx.case):
+        if i >= len(ctx.sut):
+            break
+        toks = ctx.sut[i]
+        if any(t.startswith('ESCAPED') for t in toks):
+            fail('C15', 'an exception escaped', ctx, i)
+        # independence: behaviours are tagged with '@k' when they run on an object that is not the driven one
+        for t in toks:
+            p = parse(t)
+            if (p and t.rsplit('@', 1)[-1].lstrip('-').isdigit() and '@' in t.split('/')[-1]):
+                other = t.rsplit('@', 1)[-1]
+                sig = None
+                if dialect_of(ctx.cfg) == 'back' and c['op'] in ('P', 'X'):
+                    sig = 'back_pending_events_of_a_copy_run_on_the_original'
+                fail('C15', 'while object %d is driven, behaviour %s ran on object %s' % (cur, t, other), ctx, i, sig=sig)
+        k = c['op']
+        if k == 'W' and not any('skip' in t for t in toks):
+            cur = c['obj']
+            it = ids_of(toks)
+            if cur in last_ids and it != last_ids[cur]:
+                sig = 'back_pending_events_of_a_copy_run_on_the_original' if dialect_of(ctx.cfg) == 'back' else None
+                fail('C15', 'configuration of object %d changed while other objects were driven: %s -> %s' % (cur, last_ids[cur], it), ctx, i, sig=sig)
+        elif k in ('C', 'M'):
+            new = [t for t in toks if t.startswith('[%s->' % k)]
+            if new:
+                n = int(new[0][4:-1])
+                last_ids[n] = last_ids.get(cur)
+                src_ids = last_ids.get(cur)
+                pend = any(ctx.case[j]['op'] == 'Q' for j in hist.get(cur, []) if j < i)
+                if src_ids and init_ids and src_ids != init_ids or pend:
+                    copied_from_nontrivial.add(n)
+                classes['copy_construct' if k == 'C' else 'move_construct'] += 1
+        elif k == 'A' and not any('skip' in t for t in toks):
+            last_ids[c['dst']] = last_ids.get(c['src'])
+            classes['copy_assign'] += 1
+            if last_ids.get(c['src']) != init_ids:
+                copied_from_nontrivial.add(c['dst'])
+        it = ids_of(toks)
+        if it and k in ('S', 'T', 'P', 'Q', 'X'):
+            last_ids[cur] = it
+            if k == 'S' and init_ids is None:
+                init_ids = it
+    # faithful: compare every derived object's observed tokens with the fresh replay of its history
+    for obj, (idxs, rtoks) in refs.items():
+        for pos, idx in enumerate(idxs):
+            if idx >= len(ctx.sut) or pos >= len(rtoks):
+                break
+            a = [t for t in ctx.sut[idx]]
+            b = [t for t in rtoks[pos]]
+            if a != b:
+                j = 0
+                while j < min(len(a), len(b)) and a[j] == b[j]:
+                    j += 1
+                sig = None
+                if dialect_of(ctx.cfg) == 'back':
+                    # RC5: occurrences that were pending (queued or deferred) when the copy was taken are bound to the original
+                    copy_points = [i2 for i2, c2 in enumerate(ctx.case) if c2['op'] in ('C', 'A')]
+                    inherited = set()
+                    for i2 in idxs:
+                        if copy_points and i2 < max(copy_points):
+                            c2 = ctx.case[i2]
+                            if 'payload' in c2:
+                                inherited.add(c2['payload'])
+                            for lst in (c2.get('scripts') or {}).values():
+                                for sc in lst:
+                                    if sc[0] == 'p':
+                                        inherited.add(sc[2])
+                    for t in (a[j] if j < len(a) else None, b[j] if j < len(b) else None):
+                        pp_ = parse(t) if t else None
+                        if pp_ and payload_of(pp_) in inherited:
+                            sig = 'back_pending_events_of_a_copy_run_on_the_original'
+                fail('C15', 'object %d (a copy) does not behave like a fresh machine given the same history: op %s, token %d: %s vs %s'
+                     % (obj, cases.op_str(ctx.case[idx]), j, a[j] if j < len(a) else None, b[j] if j < len(b) else None), ctx, idx,
+                     copy_trace=' '.join(a), fresh_trace=' '.join(b), sig=sig)
+        own = [idx for idx in idxs if idx > min([i for i, c in enumerate(ctx.case) if c['op'] in ('C', 'M', 'A')] or [0])]
+        if obj in copied_from_nontrivial and own:
+            nontrivial.append((ctx.spec['id'], obj, cases.to_line([ctx.case[i] for i in idxs])[-200:]))
+            classes['nontrivial_copies_with_continuation'] += 1
+    classes['cases'] += 1
+    return dict(nontrivial=nontrivial, classes=classes)
